@@ -127,7 +127,60 @@ def cases_retries(tier, rng):
                     yield {"retries": r, "rets": list(rets), "capture": capture, "stderr": errs, "perm": ["Invalid job id specified"]}
 
 
+
+def run_run_script(S, case):
+    """HpcSubmitter._create_run_script through the real constructor: two groups with different per-group options; the script of a batch must carry ITS
+    group's options (C06 processes-per-node, C07 run options)."""
+    import os
+    import random
+    import shutil
+    import tempfile
+    from jade.extensions.generic_command import GenericCommandConfiguration, GenericCommandParameters
+    from jade.hpc.hpc_submitter import HpcSubmitter
+    from jade.jobs.cluster import Cluster
+    from jade.models import SubmitterParams, HpcConfig, SubmissionGroup
+    from jade.models.hpc import SlurmConfig
+    rng = random.Random(case["seed"])
+    d = tempfile.mkdtemp(prefix="verif-rs-")
+    try:
+        cfg = GenericCommandConfiguration()
+        groups = []
+        for g in range(case["groups"]):
+            ppn = rng.choice([None, 1, 2, 4, 7])
+            groups.append(SubmissionGroup(name=f"g{g}", submitter_params=SubmitterParams(
+                hpc_config=HpcConfig(hpc_type="slurm", hpc=SlurmConfig(account="x")), num_parallel_processes_per_node=ppn,
+                verbose=rng.random() < 0.5, distributed_submitter=rng.random() < 0.5, max_nodes=3, poll_interval=10)))
+        for i in range(case["groups"]):
+            cfg.add_job(GenericCommandParameters(command="true", name=f"j{i}", submission_group=f"g{i}"))
+        for g in groups:
+            cfg.append_submission_group(g)
+        cluster = Cluster.create(d, cfg)
+        sub = HpcSubmitter(cfg, os.path.join(d, "config.json"), cluster, d)
+        failed = []
+        for g in groups:
+            fn = os.path.join(d, f"run_{g.name}.sh")
+            sub._create_run_script(os.path.join(d, "config_batch_1.json"), fn, g)
+            lines = open(fn).read().splitlines()
+            cmd = lines[-1]
+            p = g.submitter_params
+            want = f"jade-internal run-jobs {os.path.join(d, 'config_batch_1.json')} --output={d} " + ("--distributed-submitter" if p.distributed_submitter else "--no-distributed-submitter")
+            if p.num_parallel_processes_per_node is not None:
+                want += f" --num-parallel-processes-per-node={p.num_parallel_processes_per_node}"
+            if p.verbose:
+                want += " --verbose"
+            if cmd != want or lines[0] != "#!/bin/bash":
+                failed.append(f"run script of group {g.name}: {cmd!r}, expected {want!r}")
+        return {"pre_ok": True, "ok": not failed, "failed": failed}
+    finally:
+        shutil.rmtree(d, ignore_errors=True)
+
+
+def cases_run_script(tier, rng):
+    for i in range(30 if tier == "quick" else 400):
+        yield {"seed": rng.randint(0, 10**9), "groups": rng.randint(1, 3)}
+
 HARNESSES = {
+    "HpcSubmitterT._create_run_script": (cases_run_script, run_run_script),
     "SlurmManager._create_submission_script_text": (cases_script_text, run_script_text),
     "SlurmManager._get_statuses_from_output": (cases_statuses, run_statuses),
     "run_command": (cases_retries, run_retries),
